@@ -319,3 +319,35 @@ M("C33", "twin: if/raise instead of assert", "twin",
 M("C34", "first trajectory skipped", "kill", [(BACK, "        for sequence_data in pulser_data.get_sequences():\n            results.append(self._run_from_sequence_data(sequence_data, self._config))", "        for i, sequence_data in enumerate(pulser_data.get_sequences()):\n            if i == 0 and self._config.n_trajectories > 4:\n                continue\n            results.append(self._run_from_sequence_data(sequence_data, self._config))")], "TRAJ")
 M("C34", "only the last result returned", "kill", [("emu_sv/sv_backend.py", "        return Results.aggregate(results)", "        return Results.aggregate(results[-1:])")], "TRAJ")
 M("C34", "n_trajectories not forwarded", "kill", [(PA, "            n_trajectories=config.n_trajectories,\n", "")], "GRID")
+
+# ---------------------------------------------------------------- rules added after the seeded-change rounds
+LO = "emu_sv/lindblad_operator.py"
+HSV = "emu_sv/hamiltonian.py"
+MPSF = "emu_mps/mps.py"
+M("C04", "single-basis guard removed", "kill",
+  [(PA, "    if len(sequence_dict) != 1:\n        raise ValueError(\"Only single interaction type is supported.\")\n", "")], "DISPATCH-reject")
+M("C04", "imaginary-part guard removed", "kill",
+  [(PA, "                raise ValueError(f\"Input {name} has non-zero imaginary part.\")", "                pass")], "DISPATCH-reject")
+M("C04", "qudit false-positive guard removed", "kill",
+  [(MPSF, "        if p_false_pos > 0 and self.dim > 2:\n            raise NotImplementedError(\"Not implemented for qudits > 2 levels\")\n", "")], "DISPATCH-reject")
+M("C04", "dim guard accepts 4", "kill", [("emu_mps/hamiltonian.py", "        if dim not in (2, 3):", "        if dim not in (2, 3, 4):")], "DISPATCH-reject")
+M("C04", "initial state with SPAM no longer rejected", "kill",
+  [(SVI, "        if self._config.initial_state is not None and self._data.state_prep_error > 0.0:", "        if False:")], "DISPATCH-reject")
+M("C04", "twin: single-basis guard written with ==", "twin",
+  [(PA, "    if len(sequence_dict) != 1:\n        raise ValueError(\"Only single interaction type is supported.\")\n",
+    "    if not len(sequence_dict) == 1:\n        raise ValueError(\"Only single interaction type is supported.\")\n")])
+M("C06", "h_eff skips undriven qubits", "kill",
+  [(LO, "            H_q = self._local_terms_hamiltonian(qubit, lindblad_ops.to(self.device))\n",
+    "            if self.omegas[qubit] == 0.0 and self.deltas[qubit] == 0.0:\n                continue\n            H_q = self._local_terms_hamiltonian(qubit, lindblad_ops.to(self.device))\n")], "LINDBLAD-form")
+M("C16", "jump term skips the last qubit", "kill",
+  [(LO, "            for qubit in range(self.nqubits)\n            for L in self.pulser_lindblads", "            for qubit in range(self.nqubits - 1)\n            for L in self.pulser_lindblads")], "LINDBLAD-form")
+M("C16", "interaction term inside the qubit loop", "kill",
+  [(LO, "                density_matrix, H_q, qubit\n            )\n\n        H_den_matrix += self._apply_interaction_terms(density_matrix)",
+    "                density_matrix, H_q, qubit\n            )\n            H_den_matrix += self._apply_interaction_terms(density_matrix)\n")], "LINDBLAD-form")
+M("C01", "diagonal pairs start at j = i", "kill", [(HSV, "            for j in range(i + 1, self.nqubits):", "            for j in range(i, self.nqubits):")], "HAM-form")
+M("C01", "detuning added instead of subtracted", "kill", [(HSV, "            i_fixed -= self.deltas[i]", "            i_fixed += self.deltas[i]")], "HAM-form")
+M("C01", "sigma term skips zero drives by index", "kill",
+  [(HSV, "        for n, omega_n in enumerate(self.omegas):", "        for n, omega_n in enumerate(self.omegas[:-1]):")], "HAM-form")
+M("C09", "DMRG completes the step before the sweep ends", "kill",
+  [(IMPL, "        self.current_energy = energy\n\n        # updating baths and orthogonality center\n",
+    "        self.current_energy = energy\n        if self.sweep_count > self.config.max_sweeps // 2:\n            self.timestep_complete()\n            return\n\n        # updating baths and orthogonality center\n")], "CONV-gate")
